@@ -248,6 +248,14 @@ impl<'a> Cx<'a> {
                         return Ok(Tx { pre: b.pre, term: format!("({}).{}", b.term, fname), ty });
                     }
                 }
+                if let (LT::FiberId, syn::Member::Named(fname)) = (&b.ty, &f.member) {
+                    if self.vm_mode && fname == "caller" {
+                        let v = self.fresh("t");
+                        let mut pre = b.pre;
+                        pre.push(Pre::Bind(v.clone(), format!("(Rs.Vm.fiberRec vm_ {})", b.term)));
+                        return Ok(Tx { pre, term: format!("({}).caller", v), ty: LT::Opt(Box::new(LT::FiberId)) });
+                    }
+                }
                 if let (LT::Rec(_, fs), syn::Member::Named(fname)) = (&b.ty, &f.member) {
                     let fname = fname.to_string();
                     if let Some(k) = fs.iter().position(|(n, _)| *n == fname) {
@@ -679,6 +687,13 @@ impl<'a> Cx<'a> {
                 }
                 Ok(Tx { pre: x.pre, term: format!("(Rs.Value.Boolean {})", x.term), ty: LT::Value })
             }
+            ("Value::ObjClosure", 1) => {
+                let x = self.expr(args[0], Some(&LT::Value))?;
+                if x.ty != LT::Value {
+                    return self.un("Value::ObjClosure of something the translator does not carry as a value");
+                }
+                Ok(x)
+            }
             ("Value::Number", 1) => {
                 let x = self.expr(args[0], Some(&LT::F64))?;
                 if x.ty != LT::F64 {
@@ -876,10 +891,29 @@ impl<'a> Cx<'a> {
                     }
                 }
             }
+            if on_fiber && args.is_empty() {
+                // `ObjFiber::is_new` / `has_finished` of the running fiber (their bodies are re-read on every run)
+                if name == "is_new" && self.method_body_of("ObjFiber", "is_new").as_deref() == Some("{self.frames.len()==1&&self.frames[0].ip==self.frames[0].closure.function.chunk.code.as_ptr()}") {
+                    return Ok(pure("(Rs.Vm.isNew vm_)", LT::Bool));
+                }
+                if name == "has_finished" && self.method_body_of("ObjFiber", "has_finished").as_deref() == Some("{self.frames.is_empty()}") {
+                    return Ok(pure("(Rs.Vm.hasFinished vm_)", LT::Bool));
+                }
+            }
             // operations on a place of the abstract state
             if let Some(p) = rp {
                 if let Some((term, ty)) = vm_place(&p) {
                     let v = self.fresh("t");
+                    if term == "vm_.curId" && name == "replace" && args.len() == 1 {
+                        // `self.fiber.replace(f)`: the running fiber is parked, f becomes the running one; answers the old designation
+                        let x = self.expr(args[0], Some(&LT::FiberId))?;
+                        if x.ty != LT::FiberId {
+                            return self.un("self.fiber.replace(..) of something that is not a fiber");
+                        }
+                        let mut pre = x.pre;
+                        pre.push(Pre::BindVm(v.clone(), format!("(Rs.Vm.replaceFiber vm_ (some {}))", x.term)));
+                        return Ok(Tx { pre, term: v, ty: LT::Opt(Box::new(LT::FiberId)) });
+                    }
                     match (name.as_str(), args.len(), &ty) {
                         ("pop", 0, LT::List(t)) if **t == LT::Handler => {
                             return Ok(Tx { pre: vec![Pre::BindVm(v.clone(), "(Rs.Vm.popHandler vm_)".into())], term: v, ty: LT::Opt(Box::new(LT::Handler)) });
@@ -944,6 +978,39 @@ impl<'a> Cx<'a> {
                 Ok(Tx { pre: recv.pre, term: format!("({})", term), ty: LT::Str })
             }
             ("as_str", 0, LT::Str) => Ok(recv),
+            // a fiber named by its number: handles and pointers to it are the same number
+            ("as_root", 0, LT::FiberId) | ("as_gc", 0, LT::FiberId) => Ok(recv),
+            ("as_ptr", 0, LT::FiberId) => Ok(Tx { pre: recv.pre, term: format!("(some {})", recv.term), ty: LT::Opt(Box::new(LT::FiberId)) }),
+            ("has_finished", 0, LT::FiberId) if self.vm_mode && self.method_body_of("ObjFiber", "has_finished").as_deref() == Some("{self.frames.is_empty()}") => {
+                let v = self.fresh("t");
+                let mut pre = recv.pre;
+                pre.push(Pre::Bind(v.clone(), format!("(Rs.Vm.fiberRec vm_ {})", recv.term)));
+                Ok(Tx { pre, term: format!("({}).hasFinished", v), ty: LT::Bool })
+            }
+            ("is_new", 0, LT::FiberId)
+                if self.vm_mode
+                    && self.method_body_of("ObjFiber", "is_new").as_deref()
+                        == Some("{self.frames.len()==1&&self.frames[0].ip==self.frames[0].closure.function.chunk.code.as_ptr()}") =>
+            {
+                let v = self.fresh("t");
+                let mut pre = recv.pre;
+                pre.push(Pre::Bind(v.clone(), format!("(Rs.Vm.fiberRec vm_ {})", recv.term)));
+                Ok(Tx { pre, term: format!("({}).isNew", v), ty: LT::Bool })
+            }
+            ("unwrap_or_default", 0, LT::Opt(t)) if *t == LT::Value => Ok(Tx { pre: recv.pre, term: format!("(({}).getD Rs.Value.None)", recv.term), ty: LT::Value }),
+            ("map", 1, LT::Opt(t)) if *t == LT::FiberId => {
+                // `opt.map(|p| p.as_gc())` and the like: a closure that only converts between handles of one fiber
+                if let Expr::Closure(c) = args[0] {
+                    if c.inputs.len() == 1 {
+                        let (pn, _) = self.simple_pat(&c.inputs[0])?;
+                        let body = compact(&toks(&*c.body));
+                        if body == format!("{}.as_gc()", pn) || body == format!("{}.as_root()", pn) || body == pn {
+                            return Ok(recv);
+                        }
+                    }
+                }
+                self.un("`map` on an optional fiber with a closure that is not a handle conversion")
+            }
             ("is_none", 0, LT::Opt(_)) => Ok(Tx { pre: recv.pre, term: format!("({}).isNone", recv.term), ty: LT::Bool }),
             ("is_some", 0, LT::Opt(_)) => Ok(Tx { pre: recv.pre, term: format!("({}).isSome", recv.term), ty: LT::Bool }),
             ("has_catch_block", 0, LT::Handler) if self.callees.contains_key("handler::has_catch_block") => {
